@@ -166,6 +166,13 @@ Definition stripped_netloc (netloc : text) : nlres :=
 Inductive fin :=
 | FRedirect (r' : req)      (* the request handed to self.client.fetch(new_request) *)
 | FRaise                    (* an exception escaped finish(): HTTP1Connection turns it into _QuietException *)
+| FRaiseInput               (* HTTPInputError from self.request.headers.copy() (a header that add()
+                               rejects, e.g. put there through a dict): _ExceptionLoggingContext lets it
+                               through, _read_message treats it as a malformed message, closes and
+                               returns False; _read_response then raises "Malformed response" *)
+| FStuck                    (* HTTPInputError from fetch()'s HTTPHeaders(request.headers), i.e. AFTER
+                               final_callback was cleared and the slot released: nobody would complete
+                               the fetch.  Proved unreachable (ProofsRedirectTop.redirect_never_stuck) *)
 | FUnmodelled.
 
 (* finish(), the branch taken when _should_follow_redirect() holds.
@@ -189,7 +196,7 @@ Definition redirect_request (orig : text) (r : req) (h : hstate) (code : Z) (joi
                 match copy h4 with                            (* fetch(): HTTPHeaders(request.headers) *)
                 | (RUnit, h5) =>
                     FRedirect (mkReq url m b h5 au ap (Some (maxred_of r - 1)%Z) (r_follow r) (r_ua r))
-                | _ => FRaise
+                | _ => FStuck
                 end
             | _ => FRaise
             end in
@@ -206,7 +213,7 @@ Definition redirect_request (orig : text) (r : req) (h : hstate) (code : Z) (joi
           else step2 joined h1 (r_auth_user r) (r_auth_pass r)
       | _, _ => FUnmodelled
       end
-  | _ => FRaise
+  | _ => FRaiseInput
   end.
 
 (* ---------- a whole fetch against a scripted server ---------- *)
@@ -219,6 +226,8 @@ Inductive final :=
 | FinCode (code : Z) (effective_url : text)
 | FinError (e : rerr)
 | FinQuiet            (* _QuietException *)
+| FinMalformed        (* HTTPStreamClosedError "Malformed response" (599) *)
+| FinStuck            (* the user's future would stay pending (unreachable) *)
 | FinUnmodelled.
 
 Record sent := mkSentRec { sn_url : text; sn_wire : option wire;
@@ -241,6 +250,8 @@ Fixpoint chain (ver orig : text) (r : req) (script : list hop) : list sent * fin
             match redirect_request orig r (w_headers w) (hp_code hp) (hp_joined hp) with
             | FRedirect r' => let '(l, f) := chain ver orig r' script' in (me :: l, f)
             | FRaise => ([me], FinQuiet)
+            | FRaiseInput => ([me], FinMalformed)
+            | FStuck => ([me], FinStuck)
             | FUnmodelled => ([me], FinUnmodelled)
             end
           else ([me], FinCode (hp_code hp) (r_url r))
